@@ -1,5 +1,6 @@
 import DendroModel.Model.C15
 import DendroModel.Model.C15Ext
+import DendroModel.Model.C15Nbr
 open DendroModel DendroModel.C15
 
 /-- filter field: `*` no filter, `-` empty set, else comma-separated ids -/
@@ -17,6 +18,10 @@ def parseFlag (s : String) : Option Bool :=
 
 def ids (l : List T) : String := natList (l.map T.id)
 def eids (l : List E) : String := natList (l.map fun e => e.head.id)
+
+def optId : Option T → String
+  | some x => toString x.id
+  | none => "-"
 
 def opts (l : List (Option Nat)) : String :=
   " ".intercalate (l.map fun | some i => toString i | none => "-")
@@ -65,6 +70,32 @@ def handle (ws : List String) : String :=
         | "ancptr" => match parsePar rest, parseFiltN filt with
           | some par, some keepN => natList (ancPtrIter keepN inc par tree.size start)
           | _, _ => "bad-op"
+        | "children" => ids (childIter keep t)
+        | "childedges" => eids (childEdgeIter ekeep t)
+        | "incident" => eids (incidentEdges t)
+        | "adjacent" => match adjacentNodes tree start det with
+          | some l => ids l
+          | none => "bad-start"
+        | "siblings" => match siblingNodes tree start det with
+          | some l => ids l
+          | none => "bad-start"
+        | "adjacentptr" => match parsePar rest with
+          | some par => if det then "bad-op" else natList (adjacentPtr par start)
+          | none => "bad-op"
+        | "siblingsptr" => match parsePar rest with
+          | some par => if det then "bad-op" else natList (siblingPtr par start)
+          | none => "bad-op"
+        | "findnode" => optId (findNode keep t)
+        | "findnodes" => ids (findNodes keep t)
+        | "findlabel" => match decodeStr ages with
+          | some (some lab) => optId (findLabel lab t)
+          | _ => "bad-op"
+        | "findtaxlabel" => match parseFiltN ages with
+          | some q => optId (findTaxonPre q t)
+          | none => "bad-op"
+        | "findtaxon" => if ages == "-" then "-" else match ages.toNat? with
+          | some k => optId (findTaxonPost k t)
+          | none => "bad-op"
         | "nodes" => ids (treeNodes keep t)
         | "leafnodes" => ids (treeLeafNodes t)
         | "internalnodes" => if hasParent then "bad-start" else ids (treeInternalNodes ex t)
